@@ -5959,6 +5959,7 @@ int32 psX509AuthenticateCert(psPool_t *pool, psX509Cert_t *subjectCert,
     void *hwCtx, void *poolUserPtr)
 {
     psX509Cert_t *ic, *sc;
+    int32 extFail = PS_SUCCESS; /* First extension/date failure seen */
 
     if (subjectCert == NULL)
     {
@@ -6233,6 +6234,13 @@ L_INTERMEDIATE_ROOT:
         {
             sc->authStatus = PS_CERT_AUTH_PASS;
         }
+        else if (extFail == PS_SUCCESS)
+        {
+            /* The signature verified but a date, keyUsage or authorityKeyId
+                test failed.  Keep going so that every certificate gets its
+                authStatus, but do not report the chain as authenticated. */
+            extFail = sc->authStatus;
+        }
 /*
         Loop control for finding next ic and sc.
  */
@@ -6258,7 +6266,7 @@ L_INTERMEDIATE_ROOT:
         }
 
     }
-    return PS_SUCCESS;
+    return extFail;
 }
 
 /******************************************************************************/
